@@ -43,11 +43,13 @@ ow = KaniUnit("c07_cost_ops_wit", CORE, modules=[dict(file=CORE + "/src/model/co
 ow.native_witnesses = ["c07_wit_cost_is_weight_times_rated_state_change"]
 co = VerusUnit("c07_cost_ops", "c07_cost_ops", rlimit=30, paired_kani=(ow, []))
 cb = VerusUnit("c02_cost_build", "c02_cost_build", rlimit=30)
-UNITS = [cost_unit, vm_unit, co, cb, rate, rw, ow]
+nr = VerusUnit("c07_network_rate", "c07_network_rate", rlimit=30, paired_kani=(ow, []))
+UNITS = [cost_unit, vm_unit, co, cb, rate, nr, rw, ow]
 EXPLANATION = ("contracts on the cost floor / clip functions (all f64, Kani) and on the cost model and the per-edge cost split (Verus, reals): total = floor(vehicle + network) > 0, estimate = clip(vehicle) >= 0, access + traversal share = the floored total; "
                "WHAT the aggregated costs are (unit c07_cost_ops, Verus on the verbatim cost_ops::calculate_vehicle_costs / calculate_network_traversal_costs / calculate_network_access_costs and CostAggregation::agg_iter, any number of features): "
                "the aggregate -- SUM, or product under mul, nothing for no feature -- over the features in order of weight x RATED CHANGE OF STATE in the feature's slot (vehicle), weight x the surcharge its network rate lists for the edge (traversal), "
                "weight (1 when it has none) x the surcharge listed for the pair of edges (access); a slot outside a vector or a failing lookup fails the whole cost, never a skipped feature; lemma: the sum is linear in each weight (a zero weight contributes nothing); "
                "the closure of each calculator is its verbatim body CHECKED against the annotated term, the lazy iterator it feeds is an opaque iterator over a ghost sequence; VehicleCostRate::map_value for EVERY rate (unit c07_rate); "
+               "the surcharges (unit c07_network_rate, Verus on the verbatim NetworkCostRate::traversal_cost / access_cost, every rate, recursion with termination): a per-edge table charges its row for the edge on TRAVERSAL and nothing on access, a per-pair table charges its row for (previous edge, next edge) on ACCESS and nothing on traversal, a missing row charges nothing, a combined rate charges the SUM of its members, and the lookups never fail; "
                "CostModel::new (unit c02_cost_build): slot i of the cost model holds the weight and rates of the feature at slot i of the state model")
-NOT_DECIDED = "NetworkCostRate::traversal_cost / access_cost themselves (HashMap lookups and a collect pipeline: uninterpreted surcharges per rate and edge, exercised by the cost_ops witness); f64 rounding (A-REAL): e.g. access + (total - access) can round to 0 for extreme ratios"
+NOT_DECIDED = "f64 rounding (A-REAL): e.g. access + (total - access) can round to 0 for extreme ratios"
